@@ -28,7 +28,7 @@ PROPS = {
              "one and two random cut points, random small chunks, truncated streams; plus the connection scripts (responses through the real Framed<_, LdapCodec> of a live connection: two writes per message, bursts cut at an arbitrary byte, tails arriving together with the next message). non-trivial = distinct (stream, partition) with at least one delivery",
         trivial=["need:0", "error", "end"],
         trusted=["modelled not verified: tokio_util::codec::Framed as append-then-decode loop; BytesMut"],
-        assumptions=["messages are well-formed LDAPMessage envelopes in definite-length BER nested <= 100 levels", "the default build; the codec of the optional gssapi feature is not modelled (known finding F45)"],
+        assumptions=["messages are well-formed LDAPMessage envelopes in definite-length BER nested <= 100 levels", "frames around 16 MiB: oracle-only bigframe cases (built inside the lane; the list-based model is not run at that size, the theorem is unbounded)", "the default build; the codec of the optional gssapi feature is not modelled (known finding F45)"],
     ),
     "C11": dict(
         groups=[("hostile", 6000, 400000), ("ber", 600, 20000), ("conn", 300, 20000), ("faults", 120, 600), ("frame", 100, 4000)],
